@@ -370,17 +370,19 @@ func (e *Evaluator) evalCaseMatch(value *Cell, exprs []Expr) (bool, map[string]*
 				return true, nil, nil
 			}
 		case *ExprArray:
+			// a pattern that does not match moves on to the next alternative
 			if value.Value.Tag != ValueArray {
-				return false, nil, nil
+				continue
 			}
 
 			array := value.Value.Array
 			if len(array) != len(ex.Items) {
-				return false, nil, nil
+				continue
 			}
 
 			bindings := make(map[string]*Cell)
 
+			matched := true
 			for i, item := range array {
 				exprToMatch := ex.Items[i]
 				match, newBindings, err := e.evalCaseMatch(item, []Expr{exprToMatch})
@@ -388,11 +390,15 @@ func (e *Evaluator) evalCaseMatch(value *Cell, exprs []Expr) (bool, map[string]*
 					return false, nil, err
 				}
 				if !match {
-					return false, nil, nil
+					matched = false
+					break
 				}
 				for k, v := range newBindings {
 					bindings[k] = v
 				}
+			}
+			if !matched {
+				continue
 			}
 
 			return true, bindings, nil
